@@ -20,7 +20,18 @@ type Evaluator struct {
 	assigns map[types.Object][]ast.Expr
 	bad     map[types.Object]bool
 	depth   int
+	// subst binds the parameters of an inlined single-return helper to the caller's values
+	subst map[types.Object]substVal
 }
+
+type substVal struct {
+	alts   []string
+	opaque bool
+}
+
+// FuncDeclOf, when set, resolves a function of the analysed program to its declaration; the
+// evaluator then reads through helpers whose body is a single `return <expr>`.
+var FuncDeclOf func(*types.Func) *ast.FuncDecl
 
 const maxAlts = 32
 
@@ -121,6 +132,9 @@ func (ev *Evaluator) Eval(e ast.Expr) (alts []string, opaque bool) {
 		if obj == nil {
 			break
 		}
+		if sv, ok := ev.subst[obj]; ok {
+			return sv.alts, sv.opaque
+		}
 		if v, ok := obj.(*types.Var); ok && !v.IsField() && obj.Pkg() != nil && obj.Parent() != obj.Pkg().Scope() {
 			if ev.bad[obj] || len(ev.assigns[obj]) == 0 {
 				break
@@ -149,6 +163,9 @@ func (ev *Evaluator) Eval(e ast.Expr) (alts []string, opaque bool) {
 		f := astx.Callee(ev.info, x)
 		if f == nil {
 			break
+		}
+		if alts, op, ok := ev.inlineHelper(f, x); ok {
+			return alts, op
 		}
 		switch {
 		case f.Name() == "GetPrefixedRelationName" && len(x.Args) == 1:
@@ -321,4 +338,72 @@ func dedup(a []string) []string {
 		}
 	}
 	return out
+}
+
+// inlineHelper evaluates a call to a same-package helper whose body is one `return <string expr>`.
+func (ev *Evaluator) inlineHelper(f *types.Func, call *ast.CallExpr) ([]string, bool, bool) {
+	if FuncDeclOf == nil || f.Name() == "GetPrefixedRelationName" || ev.depth > 8 {
+		return nil, false, false
+	}
+	fd := FuncDeclOf(f)
+	if fd == nil || fd.Body == nil {
+		return nil, false, false
+	}
+	if ev.fd != nil && f.Pkg() != nil {
+		// same package only: the callee's syntax must be covered by ev.info
+		if _, ok := ev.info.Defs[fd.Name]; !ok {
+			return nil, false, false
+		}
+	}
+	// every return hands back one string expression (a single `return e`, or a selection between
+	// constants: `if c { return a }; return b`)
+	var rets []*ast.ReturnStmt
+	plain := true
+	ast.Inspect(fd.Body, func(n ast.Node) bool {
+		switch x := n.(type) {
+		case *ast.FuncLit:
+			return false
+		case *ast.ReturnStmt:
+			rets = append(rets, x)
+		case *ast.AssignStmt, *ast.ForStmt, *ast.RangeStmt, *ast.GoStmt, *ast.DeferStmt:
+			if len(fd.Body.List) != 1 {
+				plain = false
+			}
+		}
+		return true
+	})
+	if len(rets) == 0 || (len(rets) > 1 && !plain) || (len(rets) == 1 && len(fd.Body.List) != 1) {
+		return nil, false, false
+	}
+	for _, r := range rets {
+		if len(r.Results) != 1 {
+			return nil, false, false
+		}
+		if bt, ok := ev.info.TypeOf(r.Results[0]).Underlying().(*types.Basic); !ok || bt.Info()&types.IsString == 0 {
+			return nil, false, false
+		}
+	}
+	sub := &Evaluator{info: ev.info, fd: fd, assigns: map[types.Object][]ast.Expr{}, bad: map[types.Object]bool{}, depth: ev.depth, subst: map[types.Object]substVal{}}
+	i := 0
+	if fd.Type.Params != nil {
+		for _, fl := range fd.Type.Params.List {
+			for _, nm := range fl.Names {
+				if i < len(call.Args) {
+					if bt, ok := ev.info.TypeOf(call.Args[i]).Underlying().(*types.Basic); ok && bt.Info()&types.IsString != 0 {
+						a, o := ev.Eval(call.Args[i])
+						sub.subst[ev.info.Defs[nm]] = substVal{a, o}
+					}
+				}
+				i++
+			}
+		}
+	}
+	var alts []string
+	op := false
+	for _, r := range rets {
+		a, o := sub.Eval(r.Results[0])
+		alts = append(alts, a...)
+		op = op || o
+	}
+	return dedup(alts), op, true
 }
